@@ -104,6 +104,11 @@ class KernelInterpolation(darsia.Model):
 
         """
         self.kernel = kernel
+        # The kernel matrix depends on the kernel: drop the cached inverse and
+        # recompute the interpolation weights for the current supports and values
+        if hasattr(self, "Xinv"):
+            del self.Xinv
+            self.update_interpolation()
 
     def setup_kernel_problem(self) -> None:
         """Setup of linear kernel problem."""
